@@ -348,3 +348,76 @@ Definition C06d_round (c : dcfg) (k : dcache) (evs : list ev) (res : sync_result
                 then C06_complete cc kc sent (get_children_d c k sent) ds (after_hook evs)
                 else None)
   end.
+
+(* ================= C10 on the decorator: finalizer discipline ================= *)
+(* the finalize hook's decoded answer said finalized: true *)
+Definition answered_finalized (e : ev) : bool :=
+  match e_ans e with
+  | AHook ans => match decode_decorator ans with Some r => dr_finalized r | None => false end
+  | _ => false
+  end.
+
+Definition is_attachment_write (c : dcfg) (t : json) (e : ev) : bool :=
+  match is_api e with Some q => is_write q && negb (targets_d c t q) | None => false end.
+
+Definition C10d_round (c : dcfg) (t : json) (evs : list ev) : option string :=
+  let fin := d_finalizer_name c in
+  before_each (fun seen e =>
+    match e_call e with
+    | CHook hk body =>
+        match hk with
+        | HCustomize => None
+        | _ =>
+            (* (a) which hook, and what it is told *)
+            let p := jget "object" (obj_map body) in
+            let want_fin := dc_has_finalize c && (is_deleting p || negb (d_matches c p)) in
+            let flag := match jget "finalizing" (obj_map body) with JBool b => b | _ => false end in
+            if negb (Bool.eqb want_fin (hook_kind_eqb hk HFinalize)) then Some "wrong-hook-chosen" else
+            if negb (Bool.eqb flag want_fin) then Some "wrong-finalizing-flag" else None
+        end
+    | CApi q =>
+        if targets_d c t q then
+          match q_verb q with
+          | VUpdate =>
+              let adds := negb (has_finalizer (e_pre e) fin) && has_finalizer (q_body q) fin in
+              let removes := accepted e && has_finalizer (e_pre e) fin && negb (has_finalizer (post_state e) fin) in
+              (* (b), (d) adding *)
+              if adds && negb (dc_has_finalize c) then Some "finalizer-added-without-finalize-hook" else
+              if adds && is_deleting t then Some "finalizer-added-to-deleting-target" else
+              if adds && accepted e && is_deleting (e_pre e) then Some "finalizer-accepted-on-deleting-target" else
+              if adds && negb (d_matches c t) then Some "finalizer-added-to-unselected-target" else
+              if adds && existsb (is_attachment_write c t) seen then Some "finalizer-added-after-attachment-write" else
+              (* (c) removing: only after a hook answer finalized: true in this sync; without a finalize
+                 hook a leftover finalizer goes unconditionally *)
+              if removes && dc_has_finalize c && negb (existsb answered_finalized (hook_events seen))
+              then Some "finalizer-removed-without-finalized" else None
+          | _ => None
+          end
+        else if negb (is_write q) then None else
+          match q_verb q with
+          | VCreate =>
+              (* the finalizer is on the target as cached, or as an earlier read or write of this sync returned it *)
+              if dc_has_finalize c && negb (has_finalizer t fin) &&
+                 negb (existsb (fun e' => match is_api e', e_ans e' with
+                                          | Some q', AObj o => targets_d c t q' && has_finalizer o fin
+                                          | _, _ => false end) seen)
+              then Some "attachment-created-before-finalizer" else None
+          | _ => None
+          end
+    end) [] evs.
+
+(* a dying target without finalize duty (no finalize hook, finalizer already gone, or a GC finalizer present)
+   has no attachment created, updated or deleted *)
+Definition C10d_handoff (c : dcfg) (t : json) (evs : list ev) : option string :=
+  match sent_object evs with
+  | Some p =>
+      if is_deleting p && negb (should_finalize_d c p) && existsb (is_attachment_write c t) (after_hook evs)
+      then Some "attachments-touched-for-dying-target" else None
+  | None => None
+  end.
+
+Definition C10d_prop_round (c : dcfg) (k : dcache) (evs : list ev) : option string :=
+  match target_of c k with
+  | None => None
+  | Some t => orelse_s (C10d_round c t evs) (C10d_handoff c t evs)
+  end.
